@@ -18,6 +18,17 @@
 (*   offer -Handoff-> handed -AwaitClose-> discard -Resume-> read          *)
 (*   offer -CtxSkip-> handler            (strict; see Dev)                 *)
 (*   handler -Handle-> read                                                *)
+(*                                                                         *)
+(* Session kind (skind): the requests are issued on a client-to-server     *)
+(* session (initiated or received), a server-to-server session, a          *)
+(* WebSocket session or an XEP-0114 component session.  The kinds differ   *)
+(* in the namespace their stanzas live in (ContentNS) and in how the peer  *)
+(* writes it (q: "default" = unqualified within the stream's default       *)
+(* namespace, "explicit" = declared on the stanza itself; WebSocket peers   *)
+(* always declare it).  The property does not depend on the kind: no step  *)
+(* of the strict specification looks at skind or q.  The deviation          *)
+(* LookupClientServerOnly (a lookup that knows only jabber:client and      *)
+(* jabber:server) does.                                                    *)
 (***************************************************************************)
 EXTENDS Integers, Sequences, FiniteSets, TLC
 
@@ -25,22 +36,31 @@ CONSTANTS Reqs,      \* requester names = the ids they use
           KindOf,    \* [Reqs -> {"iq","message","presence"}]
           Unknown,   \* an id nobody uses
           MaxPeer,   \* bound on the number of peer items (MC)
+          SKinds,    \* session kinds explored (subset of SessionKinds)
+          Quals,     \* ways the peer qualifies its stanzas (subset of {"default", "explicit"})
           Dev
 
 Kinds == {"iq", "message", "presence"}
 Ids == Reqs \cup {Unknown}
 None == "none"
+SessionKinds == {"c2s", "c2s-recv", "s2s", "ws", "comp"}
+ContentNS(k) == CASE k \in {"c2s", "c2s-recv", "ws"} -> "jabber:client"
+                  [] k = "s2s" -> "jabber:server"
+                  [] OTHER -> "jabber:component:accept"
+QualsOf(k) == IF k = "ws" THEN {"explicit"} ELSE Quals
 
 VARIABLES rpc, outcome, table, cancelled,
           spc, cur, owner,
           inbox, npeer,
           delivered,   \* history: delivered[i]: items handed to requester i
           handled,     \* history: items given to the handler
-          dropped      \* history: response items that reached neither a caller nor the handler
+          dropped,     \* history: response items that reached neither a caller nor the handler
+          misrouted,   \* history: responses given to the handler although their requester was registered with a live context
+          skind        \* the kind of session the requests are issued on (never changes)
 
-vars == <<rpc, outcome, table, cancelled, spc, cur, owner, inbox, npeer, delivered, handled, dropped>>
+vars == <<rpc, outcome, table, cancelled, spc, cur, owner, inbox, npeer, delivered, handled, dropped, misrouted, skind>>
 
-NoItem == [id |-> None, kind |-> None, resp |-> FALSE]
+NoItem == [id |-> None, kind |-> None, resp |-> FALSE, q |-> None]
 
 Init ==
   /\ rpc = [i \in Reqs |-> "idle"] /\ outcome = [i \in Reqs |-> None]
@@ -48,43 +68,44 @@ Init ==
   /\ spc = "read" /\ cur = NoItem /\ owner = None
   /\ inbox = <<>> /\ npeer = 0
   /\ delivered = [i \in Reqs |-> <<>>] /\ handled = <<>> /\ dropped = <<>>
+  /\ misrouted = <<>> /\ skind \in SKinds
 
 -----------------------------------------------------------------------------
 (* Environment *)
 PeerSend(item) ==
   /\ inbox' = Append(inbox, item) /\ npeer' = npeer + 1
-  /\ UNCHANGED <<rpc, outcome, table, cancelled, spc, cur, owner, delivered, handled, dropped>>
+  /\ UNCHANGED <<rpc, outcome, table, cancelled, spc, cur, owner, delivered, handled, dropped, misrouted, skind>>
 
 Cancel(i) ==
   /\ i \notin cancelled /\ cancelled' = cancelled \cup {i}
-  /\ UNCHANGED <<rpc, outcome, table, spc, cur, owner, inbox, npeer, delivered, handled, dropped>>
+  /\ UNCHANGED <<rpc, outcome, table, spc, cur, owner, inbox, npeer, delivered, handled, dropped, misrouted, skind>>
 
 -----------------------------------------------------------------------------
 (* Requester *)
 Register(i) ==
   /\ rpc[i] = "idle" /\ rpc' = [rpc EXCEPT ![i] = "registered"] /\ table' = table \cup {i}
-  /\ UNCHANGED <<outcome, cancelled, spc, cur, owner, inbox, npeer, delivered, handled, dropped>>
+  /\ UNCHANGED <<outcome, cancelled, spc, cur, owner, inbox, npeer, delivered, handled, dropped, misrouted, skind>>
 
 Send(i, ok) ==
   /\ rpc[i] = "registered"
   /\ rpc' = [rpc EXCEPT ![i] = IF ok THEN "waiting" ELSE "failed"]
-  /\ UNCHANGED <<outcome, table, cancelled, spc, cur, owner, inbox, npeer, delivered, handled, dropped>>
+  /\ UNCHANGED <<outcome, table, cancelled, spc, cur, owner, inbox, npeer, delivered, handled, dropped, misrouted, skind>>
 
 CtxDone(i) ==
   /\ rpc[i] = "waiting" /\ i \in cancelled
   /\ rpc' = [rpc EXCEPT ![i] = "ctxerr"]
-  /\ UNCHANGED <<outcome, table, cancelled, spc, cur, owner, inbox, npeer, delivered, handled, dropped>>
+  /\ UNCHANGED <<outcome, table, cancelled, spc, cur, owner, inbox, npeer, delivered, handled, dropped, misrouted, skind>>
 
 Deregister(i) ==
   /\ rpc[i] \in {"got", "ctxerr", "failed"}
   /\ table' = table \ {i}
   /\ outcome' = [outcome EXCEPT ![i] = CASE rpc[i] = "got" -> "reply" [] rpc[i] = "ctxerr" -> "ctxerr" [] OTHER -> "senderr"]
   /\ rpc' = [rpc EXCEPT ![i] = IF rpc[i] = "got" THEN "reading" ELSE "finished"]
-  /\ UNCHANGED <<cancelled, spc, cur, owner, inbox, npeer, delivered, handled, dropped>>
+  /\ UNCHANGED <<cancelled, spc, cur, owner, inbox, npeer, delivered, handled, dropped, misrouted, skind>>
 
 CloseResp(i) ==
   /\ rpc[i] = "reading" /\ rpc' = [rpc EXCEPT ![i] = "closed"]
-  /\ UNCHANGED <<outcome, table, cancelled, spc, cur, owner, inbox, npeer, delivered, handled, dropped>>
+  /\ UNCHANGED <<outcome, table, cancelled, spc, cur, owner, inbox, npeer, delivered, handled, dropped, misrouted, skind>>
 
 -----------------------------------------------------------------------------
 (* Serve loop *)
@@ -92,21 +113,27 @@ ReadStart ==
   /\ spc = "read" /\ inbox # <<>>
   /\ cur' = Head(inbox) /\ inbox' = Tail(inbox)
   /\ spc' = IF Head(inbox).resp THEN "lookup" ELSE "handler"
-  /\ UNCHANGED <<rpc, outcome, table, cancelled, owner, npeer, delivered, handled, dropped>>
+  /\ UNCHANGED <<rpc, outcome, table, cancelled, owner, npeer, delivered, handled, dropped, misrouted, skind>>
 
+(* the pending request is found by id and stanza kind whatever namespace the session's    *)
+(* stanzas live in and however the peer wrote it.  The deviation knows only the client  *)
+(* and server namespaces: on a component session it misses every pending request.       *)
+Pending == cur.id \in table /\ KindOf[cur.id] = cur.kind
+LookupSees == "LookupClientServerOnly" \in Dev => ContentNS(skind) \in {"jabber:client", "jabber:server"}
 Lookup ==
   /\ spc = "lookup"
-  /\ IF cur.id \in table /\ KindOf[cur.id] = cur.kind
-     THEN owner' = cur.id /\ spc' = "offer"
-     ELSE owner' = None /\ spc' = "handler"
-  /\ UNCHANGED <<rpc, outcome, table, cancelled, cur, inbox, npeer, delivered, handled, dropped>>
+  /\ IF Pending /\ LookupSees
+     THEN owner' = cur.id /\ spc' = "offer" /\ UNCHANGED misrouted
+     ELSE /\ owner' = None /\ spc' = "handler"
+          /\ misrouted' = IF Pending /\ cur.id \notin cancelled THEN Append(misrouted, cur) ELSE misrouted
+  /\ UNCHANGED <<rpc, outcome, table, cancelled, cur, inbox, npeer, delivered, handled, dropped, skind>>
 
 (* the hand-off is ONE joint step: Serve is in its select offering, the requester in its own *)
 Handoff ==
   /\ spc = "offer" /\ rpc[owner] = "waiting"
   /\ spc' = "handed" /\ rpc' = [rpc EXCEPT ![owner] = "got"]
   /\ delivered' = [delivered EXCEPT ![owner] = Append(@, cur)]
-  /\ UNCHANGED <<outcome, table, cancelled, cur, owner, inbox, npeer, handled, dropped>>
+  /\ UNCHANGED <<outcome, table, cancelled, cur, owner, inbox, npeer, handled, dropped, misrouted, skind>>
 
 (* the requester's context ended before the hand-off: nobody waits for this response any *)
 (* more, so it goes to the handler.  The pinned code discarded it instead (Dev).          *)
@@ -116,32 +143,36 @@ CtxSkip ==
      THEN spc' = "read" /\ dropped' = Append(dropped, cur) /\ cur' = NoItem
      ELSE spc' = "handler" /\ UNCHANGED <<dropped, cur>>
   /\ owner' = None
-  /\ UNCHANGED <<rpc, outcome, table, cancelled, inbox, npeer, delivered, handled>>
+  /\ UNCHANGED <<rpc, outcome, table, cancelled, inbox, npeer, delivered, handled, misrouted, skind>>
 
 (* the requester returned without ever waiting (its send failed): same as above *)
 GoneSkip ==
   /\ spc = "offer" /\ rpc[owner] \in {"failed", "finished"} /\ outcome[owner] # "reply" /\ owner \notin cancelled
   /\ "StallOnFailedSender" \notin Dev
   /\ spc' = "handler" /\ owner' = None
-  /\ UNCHANGED <<rpc, outcome, table, cancelled, cur, inbox, npeer, delivered, handled, dropped>>
+  /\ UNCHANGED <<rpc, outcome, table, cancelled, cur, inbox, npeer, delivered, handled, dropped, misrouted, skind>>
 
+(* the response belongs to the requester it was handed to until that requester closes it, *)
+(* whatever happens to the context of the finished wait in the meantime.  The deviation   *)
+(* lets the serve loop go on as soon as that context is done.                             *)
 AwaitClose ==
-  /\ spc = "handed" /\ rpc[owner] = "closed"
+  /\ spc = "handed"
+  /\ \/ rpc[owner] = "closed" /\ rpc' = [rpc EXCEPT ![owner] = "finished"]
+     \/ "ResumeWhenCtxDone" \in Dev /\ owner \in cancelled /\ rpc[owner] \in {"got", "reading"} /\ UNCHANGED rpc
   /\ spc' = "read" /\ cur' = NoItem /\ owner' = None
-  /\ rpc' = [rpc EXCEPT ![owner] = "finished"]
-  /\ UNCHANGED <<outcome, table, cancelled, inbox, npeer, delivered, handled, dropped>>
+  /\ UNCHANGED <<outcome, table, cancelled, inbox, npeer, delivered, handled, dropped, misrouted, skind>>
 
 Handle ==
   /\ spc = "handler"
   /\ handled' = Append(handled, cur) /\ spc' = "read" /\ cur' = NoItem
-  /\ UNCHANGED <<rpc, outcome, table, cancelled, owner, inbox, npeer, delivered, dropped>>
+  /\ UNCHANGED <<rpc, outcome, table, cancelled, owner, inbox, npeer, delivered, dropped, misrouted, skind>>
 
 -----------------------------------------------------------------------------
 (* requester names carry their stanza kind: i* iq, m* message, p* presence *)
 KindAll == [i \in {"i1", "i2", "i3", "m1", "p1"} |->
               CASE i \in {"i1", "i2", "i3"} -> "iq" [] i = "m1" -> "message" [] OTHER -> "presence"]
 
-PeerItems == {[id |-> d, kind |-> k, resp |-> r] : d \in Ids, k \in Kinds, r \in BOOLEAN}
+PeerItems == {[id |-> d, kind |-> k, resp |-> r, q |-> q] : d \in Ids, k \in Kinds, r \in BOOLEAN, q \in QualsOf(skind)}
 
 Next ==
   \/ npeer < MaxPeer /\ \E it \in PeerItems : PeerSend(it)
@@ -179,6 +210,11 @@ C06_OutcomeConsistent ==
      /\ (outcome[i] = "ctxerr" => i \in cancelled /\ Len(delivered[i]) = 0)
      /\ (outcome[i] = "senderr" => Len(delivered[i]) = 0)
 C06_UnclaimedToHandler == dropped = <<>>
+(* a response that arrives while its requester is registered with a live context is never *)
+(* given to the handler as if nobody had asked (on every kind of session)                 *)
+C06_WaitedForToCaller == misrouted = <<>>
+(* while a requester holds a response (handed over, not yet closed) the serve loop waits for it *)
+C06_HeldUntilClosed == \A i \in Reqs : rpc[i] \in {"got", "reading", "closed"} => (spc = "handed" /\ owner = i)
 C06_TableClean == \A i \in Reqs : rpc[i] = "finished" => i \notin table
 (* liveness *)
 C06_ReqsTerminate == <>(\A i \in Reqs : rpc[i] = "finished")
